@@ -139,3 +139,34 @@ Proof.
   intro D. specialize (D 0%nat 1%nat 2%nat _ _ _ (conj (Nat.lt_0_succ 0) (Nat.lt_succ_diag_r 1)) eq_refl eq_refl eq_refl).
   vm_compute in D. apply D. reflexivity.
 Qed.
+
+(* Any two items of a layer OF WHICH AT LEAST ONE IS A LABEL (not a stub) keep
+   their pairwise distance, with NO chain_dominates guard: the gaps between
+   them contain both half widths, every width in between, and the hop that
+   leaves (or enters) a label always uses nodeSp -- only stub/stub hops use
+   lineSp.  In particular two labels of one layer are at least
+   (w_i + w_j)/2 + nodeSp - 1 apart (what the drawing, C08, relies on).  The
+   open finding "stub-label-stub-gap" (C01_pairwise_unguarded_refuted above)
+   concerns pairs of two STUBS only. *)
+Theorem C01_pairwise_labels : forall o its i j a c, opts_ok o -> items_ok its ->
+  (i < j)%nat -> nth_error (sorted_items its) i = Some a -> nth_error (sorted_items its) j = Some c ->
+  stub a = false \/ stub c = false ->
+  let pos := solve_layer o its in
+  (wid a + wid c) / 2 + nodeSp o - 1 <= inject_Z (nth j pos 0%Z) - inject_Z (nth i pos 0%Z).
+Proof. exact C01_pairwise_labels_lemma. Qed.
+Print Assumptions C01_pairwise_labels.
+
+(* non-vacuity: in the witness layer of C01_pairwise_unguarded_refuted the two
+   labels 0 and 4 and the label/stub pairs are covered by C01_pairwise_labels
+   although chain_dominates fails for the layer *)
+Example C01_ex_pairwise_labels :
+  let o := mkOpts 0 2 (Some 0) (Some 100) in
+  let its := [mkItem 0 40 false; mkItem (101 # 2) 1 true; mkItem (101 # 2) (1 # 4) false;
+              mkItem (101 # 2) 1 true; mkItem 100 40 false] in
+  opts_ok o /\ items_ok its /\
+  nth_error (sorted_items its) 2 = Some (mkItem (101 # 2) (1 # 4) false) /\
+  solve_layer o its = [20; 50; 50; 51; 80]%Z.
+Proof.
+  split; [split; discriminate|]. split; [repeat constructor; discriminate|].
+  vm_compute. split; reflexivity.
+Qed.
